@@ -1070,7 +1070,7 @@ class GroupBy:
                 if mask is not None:
                     observed = self.count_ikey(mask=mask) > 0
                 else:
-                    observed = self.key_count > 0
+                    observed = self.ikey_count > 0
 
             if isinstance(sortkey, np.ndarray):
                 observed = sortkey[observed[sortkey]]
